@@ -41,15 +41,18 @@ MC_THOROUGH = MC_QUICK + ["1L1F", "1LF2", "1LBF", "LF2", "LBF", "RLF", "RRF", "2
 X_QUICK = [("1L1F_x", "1L1F", "all", (False,)), ("1LF2_x", "1LF2", "all", (False,)), ("1LBF_x", "1LBF", "all", (False,)),
            ("1L2F_x", "1L2F", "all", (False,)), ("RF_x", "RF", "all", (False,)),
            ("3L0_x", "3L", "all", (False,)), ("2L1F01_x", "2L1F", "all", (False,))]
-X_THOROUGH = [("1L1F_x", "1L1F", "all", (False, True)), ("1L2F_x", "1L2F", "all", (False, True)), ("RF_x", "RF", "all", (False, True)),
-              ("2L1F_x", "2L1F", "all", (False, True)), ("1LF2_x", "1LF2", "all", (False, True)), ("1LBF_x", "1LBF", "all", (False, True)), ("LF2_x", "LF2", "all", (False,)),
-              ("3L_x", "3L", "all", (False,)), ("LBF_x", "LBF", "all", (False,)), ("RLF_x", "RLF", "all", (False,)),
-              ("RRF_x", "RRF", "all", (False,)), ("2L2F_sim", "2L2F", "sim", (False,)), ("3L2F_sim", "3L2F", "sim", (False,))]
+X_THOROUGH = [("3L2F_sim", "3L2F", "sim", (False,)), ("2L2F_sim", "2L2F", "sim", (False,)),      # biggest first
+              ("3L01_x", "3L", "all", (False,)), ("RLF_x", "RLF", "all", (False,)), ("LBF2_x", "LBF", "all", (False,)),
+              ("LF2_x", "LF2", "all", (False,)), ("2L1F_x", "2L1F", "all", (False,)), ("2L1F01_x", "2L1F", "all", (True,)),
+              ("1L2F_x", "1L2F", "all", (False, True)), ("1LBF_x", "1LBF", "all", (False, True)), ("1LF2_x", "1LF2", "all", (False, True)),
+              ("1L1F_x", "1L1F", "all", (False, True)), ("RF_x", "RF", "all", (False, True))]
 QUICK_CAP = 16000          # schedules replayed per config in the quick tier (all of them below the cap)
-SIM_WALKS = 6000           # per TLC worker (x4)
+SIM_WALKS = 12000          # random walks per sim config (split over the TLC workers)
 SHARD = 2000               # schedules per harness process
 BATCH = 30000              # events per TLC judge run (small trace files are concatenated)
-PAR = 6
+PAR = 8                    # harness processes / single-worker TLC judges in parallel
+# model-checking / export runs in parallel x TLC workers each (at most 8 TLC workers at a time)
+PAR_TLC = {"quick": (8, 1), "thorough": (4, 2)}
 
 
 # ------------------------------------------------------------------------------------------------
@@ -67,16 +70,16 @@ def mc(ctx, shape):
     ign = () if nofit else R_ACTIONS
     if not forget:
         ign = tuple(ign) + F_ACTIONS
-    r = C.tlc_mc(ctx, "MC_PtLF", cfg="MC_PtLF_%s.cfg" % shape, workers=2 if shape != "3L2F" else 6,
+    r = C.tlc_mc(ctx, "MC_PtLF", cfg="MC_PtLF_%s.cfg" % shape, workers=PAR_TLC[ctx.tier][1],
                  ignore_uncovered=ign, timeout=900, xmx="6g")
     return shape, r
 
 
 def export(ctx, cfg, mode):
     """Run an export config; returns (threads, [schedule dict]) parsed from the OPS / SCHED lines."""
-    args = ["-workers", "4", "-metadir", _meta(ctx, "x" + cfg), "-noGenerateSpecTE", "-config", "MC_PtLF_%s.cfg" % cfg]
+    args = ["-workers", str(PAR_TLC[ctx.tier][1]), "-metadir", _meta(ctx, "x" + cfg), "-noGenerateSpecTE", "-config", "MC_PtLF_%s.cfg" % cfg]
     if mode == "sim":
-        args += ["-simulate", "num=%d" % (SIM_WALKS if not ctx.quick else 500), "-depth", "300", "-seed", str(ctx.seed)]
+        args += ["-simulate", "num=%d" % ((SIM_WALKS if not ctx.quick else 500) // PAR_TLC[ctx.tier][1]), "-depth", "300", "-seed", str(ctx.seed)]
     args += ["MC_PtLF.tla"]
     t = time.time()
     r = C._java(args, C.SPEC, None, 1500, xmx="8g", xss="512m")
@@ -262,12 +265,13 @@ def run_c09(ctx):
     mc_shapes = MC_QUICK if ctx.quick else MC_THOROUGH
     xs = X_QUICK if ctx.quick else X_THOROUGH
     ex = cf.ThreadPoolExecutor(max_workers=PAR)
+    ex_tlc = cf.ThreadPoolExecutor(max_workers=PAR_TLC[ctx.tier][0])
 
     # --- 1. model checking of the step model (I => A within the bounds) + mutation self-test
-    fut_mc = [ex.submit(mc, ctx, s) for s in mc_shapes]
-    fut_mut = ex.submit(lambda: C.tlc_mc(ctx, "MC_PtLF", cfg="MC_PtLF_mut_zero.cfg", workers=2, timeout=600, xmx="4g",
+    fut_x = {x[0]: ex_tlc.submit(export, ctx, x[0], x[2]) for x in xs}
+    fut_mc = [ex_tlc.submit(mc, ctx, s) for s in mc_shapes]
+    fut_mut = ex_tlc.submit(lambda: C.tlc_mc(ctx, "MC_PtLF", cfg="MC_PtLF_mut_zero.cfg", workers=PAR_TLC[ctx.tier][1], timeout=600, xmx="4g",
                                          expect_violation=True, must_cover=False))
-    fut_x = {x[0]: ex.submit(export, ctx, x[0], x[2]) for x in xs}
 
     mc_rows = []
     t0 = time.time()
@@ -319,7 +323,7 @@ def run_c09(ctx):
         with open(out) as f:
             nev = sum(1 for _ in f)
         return json.loads(r.stdout.strip().splitlines()[-1]), out, nev
-    n_stress, it_stress = (1, 600) if ctx.quick else (8, 6000)
+    n_stress, it_stress = (1, 600) if ctx.quick else (8, 2000)
     fut_s = [ex.submit(stress, i, it_stress) for i in range(n_stress)]
     C.log("exports done, %d replay shards + %d stress runs queued (%.0fs)" % (len(jobs), n_stress, time.time() - t0))
 
